@@ -2035,9 +2035,11 @@ class Builder:
                     # If the request was sequential, each pair has already been
                     # measured and does not need to be freed.
                     # Otherwise: free the qubits.
+                    # (Only emit the instructions: the handles stay valid, since this
+                    # code runs only when the attempt is discarded and retried.)
                     if not params.sequential:
                         for q in qubits:
-                            q.free()
+                            self._build_cmds_qfree(qubit_id=q.qubit_id)
 
                 loop.set_cleanup_code(cleanup)
 
@@ -2075,9 +2077,11 @@ class Builder:
                     # If the request was sequential, each pair has already been
                     # measured and does not need to be freed.
                     # Otherwise: free the qubits.
+                    # (Only emit the instructions: the handles stay valid, since this
+                    # code runs only when the attempt is discarded and retried.)
                     if not params.sequential:
                         for q in qubits:
-                            q.free()
+                            self._build_cmds_qfree(qubit_id=q.qubit_id)
 
                 loop.set_cleanup_code(cleanup)
 
